@@ -6,6 +6,11 @@
 
 package cl
 
+// C07, package-wide: a function that evaluates Lisp forms itself forwards the
+// return-from / go marker an evaluation hands back: nothing more is evaluated
+// and the marker is the function's result.
+//@ every-function cl forward-exits
+
 // ---------------------------------------------------------------------------
 // C05, family I: in these functions every 64-bit integer value that is boxed
 // into a Lisp object, returned, stored or passed on must equal the
